@@ -113,6 +113,12 @@ MAP = [
     (U, '_get_start_index', ['Ems.getStartIndex'], ['C10']),
     (U, 'Mesh2DTopology._to_index_array', ['Ems.toIndexArray'], ['C06', 'C10']),
     (U, 'Mesh2DTopology.make_edge_node_array', ['Ems.makeEdgeNode'], ['C10']),
+    (U, 'Mesh2DTopology.edge_node_array', ['Ems.Mesh.TopoIn.edgeNodeArrayN', 'Ems.Mesh.TopoIn.derivedEdgeTable',
+                                           'Ems.Mesh.makeEdgeNodeFollowingFaceEdge', 'Ems.Mesh.makeEdgeNodeFollowingEdgeFace'], ['C09', 'C10']),
+    (U, 'Mesh2DTopology.edge_count', ['Ems.Mesh.TopoIn.edgeCountN'], ['C10']),
+    (U, 'Mesh2DTopology.face_edge_array', ['Ems.Mesh.TopoIn.faceEdgeArrayN'], ['C10']),
+    (U, 'Mesh2DTopology.edge_face_array', ['Ems.Mesh.TopoIn.edgeFaceArrayN'], ['C10']),
+    (U, 'Mesh2DTopology.face_face_array', ['Ems.Mesh.TopoIn.faceFaceArrayN'], ['C10']),
     (U, 'Mesh2DTopology.make_face_edge_array', ['Ems.makeFaceEdge'], ['C10']),
     (U, 'Mesh2DTopology.make_edge_face_array', ['Ems.makeEdgeFace'], ['C10']),
     (U, 'Mesh2DTopology.make_face_face_array', ['Ems.makeFaceFace'], ['C10']),
